@@ -34,6 +34,8 @@ type sndSUT struct {
 	streams   []*fakeStream
 	conIdx    map[*pxds.Connection]int
 	closed    []bool
+	closedAt  []int // op index at which the client's stream was closed (0 = not)
+	stoppedAt int   // op index at which stopCh was closed (0 = not)
 	stopped   bool
 	started   bool
 	exited    *atomic.Bool
@@ -50,7 +52,7 @@ func newSndSUT(n, capacity int) *sndSUT {
 		capacity = 1
 	}
 	s := &sndSUT{mergeSUT: *newMergeSUT(), n: n, capacity: capacity, q: pxds.NewPushQueue(), sem: make(chan struct{}, capacity),
-		stopCh: make(chan struct{}), closed: make([]bool, n), delivered: map[int]any{}, exited: &atomic.Bool{}, crashed: &atomic.Bool{}}
+		stopCh: make(chan struct{}), closed: make([]bool, n), closedAt: make([]int, n), delivered: map[int]any{}, exited: &atomic.Bool{}, crashed: &atomic.Bool{}}
 	s.cons, s.streams, s.conIdx = newConns(n)
 	return s
 }
@@ -133,7 +135,8 @@ func (s *sndSUT) unsettledClass() string {
 			if i%2 == 1 {
 				kind = "delta"
 			}
-			if s.closed[i] {
+			// the exit that became enabled first is the one the parked push should have taken
+			if s.closed[i] && (!s.stopped || s.closedAt[i] < s.stoppedAt) {
 				return "parked-push-not-released-on-closed-stream(" + kind + "-client)"
 			}
 		}
@@ -376,12 +379,16 @@ func (s *sndSUT) applyRaw(f []string) (out string) {
 		if c < 0 {
 			return "bad-op"
 		}
+		if !s.closed[c] {
+			s.closedAt[c] = s.opIdx + 1
+		}
 		s.closed[c] = true
 		s.streams[c].cancel()
 		return s.settle()
 	case "stop":
 		if !s.stopped {
 			s.stopped = true
+			s.stoppedAt = s.opIdx + 1
 			close(s.stopCh)
 		}
 		return s.settle()
@@ -399,12 +406,16 @@ func (s *sndSUT) applyRaw(f []string) (out string) {
 		}
 		s.settle()
 		for i := range s.cons {
+			if !s.closed[i] {
+				s.closedAt[i] = s.opIdx + 1
+			}
 			s.closed[i] = true
 			s.streams[i].cancel()
 		}
 		s.settle()
 		if !s.stopped {
 			s.stopped = true
+			s.stoppedAt = s.opIdx + 2
 			close(s.stopCh)
 		}
 		s.settle()
